@@ -4,7 +4,7 @@
    invalid coin, slice-to-array conversion of a short slice).  The theorem says no guard is missing. *)
 From Coq Require Import String List ZArith Bool.
 From Orbiter Require Import Lib.Res Gen.Constants Model.Ids Model.Env Model.Fee Model.Denom Model.Payload Model.State Model.Pipeline
-     Proofs.FeeProofs Proofs.NoPanic Proofs.Corollaries Props.Examples.
+     Model.Json Proofs.FeeProofs Proofs.NoPanic Proofs.Corollaries Proofs.JsonProofs Props.Examples.
 Import ListNotations.
 Open Scope string_scope.
 Open Scope Z_scope.
@@ -18,6 +18,18 @@ Theorem C14_total : forall cfg e w p tape,
   forall x, rr_out (recv cfg e w p tape) <> OPanic x.
 Proof. intros cfg e w p tape H x. exact (recv_never_panics cfg e w p tape 0 H x). Qed.
 Print Assumptions C14_total.
+
+(* ... and the decoder does return, for EVERY JSON document (null / absent / wrongly typed members at every
+   position, null list entries, repeated keys, extreme numbers): an error, never a panic - so whatever
+   document the memo holds, the receive path answers with an acknowledgement *)
+Theorem C14_decoder_total : forall e t, is_panic (decode_memo e t) = false.
+Proof. exact decode_never_panics. Qed.
+Print Assumptions C14_decoder_total.
+Theorem C14_total_json : forall cfg e w p tape t,
+  memo_of p = decode_memo e t ->
+  forall x, rr_out (recv cfg e w p tape) <> OPanic x.
+Proof. intros cfg e w p tape t H. apply C14_total. rewrite H. apply decode_never_panics. Qed.
+Print Assumptions C14_total_json.
 
 (* a memo the decoder rejects, or a payload the validator rejects, addressed to the orbiter account:
    error acknowledgement *)
